@@ -22,7 +22,7 @@ BUDGET = {"quick": 3000, "thorough": 40000}
 MIN_NONTRIVIAL = {"quick": 300, "thorough": 3000}
 REQUIRED_FUNCTIONS = ["listener.py:BlackbirdListener.exitArrayvar", "auxiliary.py:_expression", "program.py:BlackbirdProgram.serialize", "listener.py:is_ptype"]
 FUNCTIONS = REQUIRED_FUNCTIONS
-REQUIRED_TAGS = ["tdm", "control", "parray:int", "parray:float", "parray:complex", "parray:keyword", "parray:in-loop", "with:template-parameter", "with:ordinary-array", "with:scalar", "parray:long"]
+REQUIRED_TAGS = ["tdm", "control", "parray:int", "parray:float", "parray:complex", "parray:keyword", "parray:in-loop", "with:template-parameter", "with:ordinary-array", "with:scalar", "parray:long", "parray:whole-array-parameter"]
 ASSUMPTIONS = ["tdm rule of the reference: an array named p<digits> used as a whole argument denotes its name (DESIGN Appendix A rule 12)"]
 
 
@@ -40,7 +40,17 @@ def build(rng, g, tdm=True):
         vt = rng.choice(["int", "float", "float", "complex"])
         rows = rng.choice([1, 1, 1, 2, 3])
         cols = rng.randint(1, 6)
-        if rng.random() < 0.12:
+        if rng.random() < 0.04 and vt != "int":
+            # the hardware-template form: the whole p-array is one template parameter with a declared shape
+            rows, cols = rng.choice([(1, 2), (1, 3), (2, 2), (1, 5)])
+            wp = rng.choice(["rs", "phases", "arr%d" % rng.randint(0, 9), "U"])
+            t = "%s array %s[%d, %d] =\n    {%s}" % (vt, pn, rows, cols, wp)
+            if G.feed(t) and pn in G.it.env:
+                G.arrays[pn] = (vt, rows, cols, True)
+                tags.add("parray:whole-array-parameter")
+            else:
+                t = None
+        elif rng.random() < 0.12:
             # a long p-array written with full-precision values (now and then more than a thousand elements)
             rows, cols = 1, rng.choice([12, 20, 40] + ([1001, 1500] if rng.random() < 0.15 else []))
             els = [repr(rng.uniform(-3, 3)) if vt != "int" else str(rng.randint(0, 10 ** 9)) for _ in range(cols)]
